@@ -434,7 +434,7 @@ def run_job(job, io):
                 if opk == 'register':
                     optree.register_pytree_node(args_cls, f.flatten, f.unflatten, namespace=ns_arg, **kwargs)
                 else:
-                    form = tape.draw(4, 'deco') if sweep is None else 0
+                    form = tape.draw(5, 'deco') if sweep is None else 0
                     pet = {}
                     if tape.draw(3, 'class-pet') == 2 and sweep is None:
                         pet = {'path_entry_type': optree.GetAttrEntry}
@@ -444,8 +444,8 @@ def run_job(job, io):
                         optree.register_pytree_node_class(args_cls, namespace=ns_arg, **pet)
                     elif form == 1:
                         optree.register_pytree_node_class(namespace=ns_arg, **pet)(args_cls)
-                    elif form == 2 and isinstance(ns_arg, str) and ns_arg:
-                        optree.register_pytree_node_class(ns_arg, **pet)(args_cls)  # positional-string form
+                    elif form in (2, 4) and ((isinstance(ns_arg, str) and ns_arg) or (form == 4 and ns_arg is GLOBAL)):
+                        optree.register_pytree_node_class(ns_arg, **pet)(args_cls)  # positional form: a string or the global sentinel
                     else:
                         optree.register_pytree_node_class(None, namespace=ns_arg, **pet)(args_cls)
                     probes['class-form:%d' % form] += 1
@@ -455,7 +455,9 @@ def run_job(job, io):
             elif opk == 'dataclass':
                 if expect_exc is None and fault == 'arg':
                     expect_exc = (TypeError, ValueError)
-                if ns_arg is GLOBAL:
+                if ns_arg is GLOBAL and tape.draw(2, 'dc-global') == 0 and sweep is None:
+                    pass  # a dataclass registered in the global namespace (the sentinel passed as such)
+                elif ns_arg is GLOBAL:
                     ns_arg = 'a'
                     key_ns = 'a'
                 if args_cls == 42:
